@@ -44,7 +44,7 @@ func init() { families["tp"] = famTP }
 
 const (
 	tpLoc     = "https://tp.example"   // service 0
-	tpLocB    = "https://tp-b.example" // service 1: own key, own location, SAME store
+	tpLocB    = "https://tp-b.example/auth/v1" // service 1: own key, own location (WITH a path, which tp/README allows), SAME store
 	tpFirst   = "https://first-party.example"
 	tpCavEnd  = int64(1) << 40
 	tpUserPfx = "/user/"
@@ -353,7 +353,8 @@ func (w *tpWorld) live() string {
 
 // the handlers of service v (inst is its tp.TP, or the other one with v's key swapped in)
 func (w *tpWorld) mux(v int, inst *tp.TP, rw http.ResponseWriter, r *http.Request) {
-	path := r.URL.EscapedPath()
+	// (a service whose location has a path is mounted there and sees the full, unstripped path)
+	path := strings.TrimPrefix(r.URL.EscapedPath(), "/auth/v1")
 	switch {
 	case path == tp.InitPath:
 		if w.initH[v] == nil {
@@ -520,7 +521,8 @@ func (w *tpWorld) runAct(th *tpThread) string {
 		w.mux(a.svc, svc, rec, req)
 		return w.httpTok(rec, th)
 	case "uservisit":
-		req := httptest.NewRequest("GET", tpLoc+tpUserPfx+a.secret, nil).WithContext(ctx)
+		// (the user page is the application's own URL: it does not live under the service's location path)
+		req := httptest.NewRequest("GET", strings.TrimSuffix(tpLoc, "/auth/v1")+tpUserPfx+a.secret, nil).WithContext(ctx)
 		rec := httptest.NewRecorder()
 		w.mux(a.svc, svc, rec, req)
 		return w.httpTok(rec, th)
